@@ -1,25 +1,352 @@
-//! C17 — not built yet (stub).
+//! C17 — corrupted index files are detected.
+//! A small index (2–3 segments with a tombstone, pending WAL operations) is built once per
+//! case; each mutation (single-byte xor with a mask, truncation, or explicit replacement of a
+//! file) is applied to a copy, the copy is opened and probed (reader searches, then a new writer
+//! whose recovered queue is read, an upsert and a commit, then a search again).  Outcome classes:
+//! error | same | different | panic.  Finder: segment and manifest files must give error or
+//! same; the WAL must give the intact prefix of its operations (or an error).  Correspondence:
+//! the model's `openSegment` (real CRC-32 over the original and the damaged bytes) predicts
+//! whether the checksums stop a damaged segment file, and the model's WAL replay predicts the
+//! recovered queue.
+use crate::idx;
 use crate::proto::Driver;
 use crate::rng::Rng;
 use crate::summary::Summary;
+use crate::util::{guarded, hex, scratch};
 use crate::{Prop, Tier};
+use searchlite_core::api::Index;
 use serde_json::{json, Value};
+use std::path::{Path, PathBuf};
 
-pub struct Stub;
-pub static P: Stub = Stub;
+pub struct C17;
+pub static P: C17 = C17;
 
-impl Prop for Stub {
+const WORDS: [&str; 8] = ["rust", "search", "engine", "fast", "lite", "index", "query", "token"];
+const TAGS: [&str; 3] = ["red", "green", "blue"];
+
+fn schema() -> Value {
+  json!({
+    "text_fields": [{"name":"body","analyzer":"default","stored":true,"indexed":true}],
+    "keyword_fields": [{"name":"tag","stored":true,"indexed":true,"fast":true}],
+    "numeric_fields": [{"name":"n","i64":true,"fast":true,"stored":true}]
+  })
+}
+
+fn copy_dir(from: &Path, to: &Path) {
+  let _ = std::fs::create_dir_all(to);
+  if let Ok(rd) = std::fs::read_dir(from) {
+    for e in rd.flatten() {
+      if e.path().is_file() {
+        let _ = std::fs::copy(e.path(), to.join(e.file_name()));
+      }
+    }
+  }
+}
+
+/// files in a reproducible order: manifest, log, then per segment (manifest order) its five files
+fn file_list(dir: &Path) -> Vec<(String, PathBuf)> {
+  let mut out = vec![("manifest".to_string(), dir.join("MANIFEST.json")), ("wal".to_string(), dir.join("wal.log"))];
+  if let Ok(txt) = std::fs::read_to_string(dir.join("MANIFEST.json")) {
+    if let Ok(m) = serde_json::from_str::<Value>(&txt) {
+      for (i, seg) in m["segments"].as_array().cloned().unwrap_or_default().iter().enumerate() {
+        for k in ["terms", "postings", "docstore", "fast", "meta"] {
+          if let Some(p) = seg["paths"][k].as_str() {
+            let name = Path::new(p).file_name().unwrap().to_string_lossy().to_string();
+            out.push((format!("seg{i}.{k}"), dir.join(name)));
+          }
+        }
+      }
+    }
+  }
+  out
+}
+
+fn strip(resp: &Value) -> Value {
+  // ids, scores, stored fields, totals and aggregations — no timings or profile
+  json!({"hits": resp["hits"].as_array().map(|a| a.iter().map(|h| json!([h["doc_id"], h["score"], h["fields"]])).collect::<Vec<_>>()),
+         "total": resp["total_hits_estimate"], "aggs": resp["aggregations"]})
+}
+
+fn searches(idx: &Index) -> Result<Value, String> {
+  let reader = idx.reader().map_err(|e| format!("reader: {e}"))?;
+  let mut out = Vec::new();
+  for req in [
+    json!({"query":{"type":"match_all"},"limit":100,"return_stored":true,"execution":"bm25"}),
+    json!({"query":"rust engine","limit":100,"return_stored":false,"execution":"bm25"}),
+    json!({"query":{"type":"match_all"},"filter":{"KeywordEq":{"field":"tag","value":"red"}},"limit":100,"return_stored":false,
+           "aggs":{"t":{"type":"terms","field":"tag"},"s":{"type":"stats","field":"n"}}}),
+    json!({"query":{"type":"match_all"},"filter":{"I64Range":{"field":"n","min":2,"max":40}},"limit":100,"return_stored":false,
+           "sort":[{"field":"n","order":"desc"}]}),
+  ] {
+    match idx::search(&reader, &req) {
+      idx::Outcome::Ok(v) => out.push(strip(&v)),
+      idx::Outcome::Err(e) => return Err(format!("search: {e}")),
+      idx::Outcome::Panic(p) => return Err(format!("PANIC search: {p}")),
+    }
+  }
+  Ok(json!(out))
+}
+
+/// full probe of a directory: (searches, recovered queue, searches after upsert+commit)
+fn probe(dir: &Path) -> Result<Value, String> {
+  let mut o = idx::opts(dir, false);
+  o.create_if_missing = false;
+  let idx = Index::open(o).map_err(|e| format!("open: {e}"))?;
+  let r1 = searches(&idx)?;
+  let queue;
+  {
+    let mut w = idx.writer().map_err(|e| format!("writer: {e}"))?;
+    queue = w.verif_queue();
+    w.add_document(&idx::doc(&json!({"_id":"d1","body":"rust upsert probe","tag":"blue","n":7}))).map_err(|e| format!("add: {e}"))?;
+    w.commit().map_err(|e| format!("commit: {e}"))?;
+  }
+  let r2 = searches(&idx)?;
+  // and once more from disk
+  let mut o2 = idx::opts(dir, false);
+  o2.create_if_missing = false;
+  let idx2 = Index::open(o2).map_err(|e| format!("reopen: {e}"))?;
+  let r3 = searches(&idx2)?;
+  Ok(json!({"r1": r1, "queue": queue.iter().map(|(a, id)| json!([a, id])).collect::<Vec<_>>(), "r2": r2, "r3": r3}))
+}
+
+fn classify(base: &Value, got: &Result<Result<Value, String>, String>, is_wal: bool) -> (&'static str, Value) {
+  match got {
+    Err(p) => ("panic", json!(p)),
+    Ok(Err(e)) if e.starts_with("PANIC") => ("panic", json!(e)),
+    Ok(Err(e)) => ("error", json!(e)),
+    Ok(Ok(v)) => {
+      if is_wal {
+        // for the log only the pre-commit searches and the queue are comparable
+        if v["r1"] == base["r1"] {
+          ("same", v["queue"].clone())
+        } else {
+          ("different", json!({"r1": v["r1"]}))
+        }
+      } else if v == base {
+        ("same", json!(null))
+      } else {
+        let which = ["r1", "queue", "r2", "r3"].iter().find(|k| v[**k] != base[**k]).copied().unwrap_or("?");
+        ("different", json!({"first_difference": which, "got": v[which], "want": base[which]}))
+      }
+    }
+  }
+}
+
+impl Prop for C17 {
   fn id(&self) -> &'static str {
     "C17"
   }
   fn rule(&self) -> &'static str {
-    "stub"
+    "case = one generated index (2-3 commits, one deletion, 1-3 pending log operations) plus a list of mutations (file chosen by weight over manifest/log/segment files, then single-byte xor with mask 0x01/0x80/0xFF at a sampled offset, or truncation to a sampled length, or explicit replacement); each mutation is one evaluation on a fresh copy of the directory; non-trivial when the mutation actually changes the file bytes; distinct = distinct (case, mutation) JSON.  thorough: many more cases and mutations (sampled; the space is too large to enumerate per run)"
   }
-  fn count(&self, _tier: Tier) -> usize {
-    0
+  fn count(&self, tier: Tier) -> usize {
+    tier.pick(32, 600)
   }
-  fn gen(&self, _rng: &mut Rng, _tier: Tier, _i: usize) -> Value {
-    json!(null)
+  fn gen(&self, rng: &mut Rng, tier: Tier, _i: usize) -> Value {
+    let ncommits = 2 + rng.below(2);
+    let mut did = 0;
+    let commits: Vec<Value> = (0..ncommits)
+      .map(|_| {
+        let nd = 2 + rng.below(4);
+        let docs: Vec<Value> = (0..nd)
+          .map(|_| {
+            did += 1;
+            let nw = 2 + rng.below(5);
+            let body: Vec<&str> = (0..nw).map(|_| *rng.pick(&WORDS)).collect();
+            let tag = *rng.pick(&TAGS);
+            json!({"_id": format!("d{did}"), "body": body.join(" "), "tag": tag, "n": rng.below(50)})
+          })
+          .collect();
+        json!(docs)
+      })
+      .collect();
+    let npend = 1 + rng.below(3);
+    let pending: Vec<Value> = (0..npend)
+      .map(|k| {
+        if rng.chance(1, 3) {
+          json!({"op":"delete","id": format!("d{}", 1 + rng.below(did))})
+        } else {
+          let tag = *rng.pick(&TAGS);
+          json!({"op":"add","doc":{"_id": format!("p{k}"), "body": "pending rust doc", "tag": tag, "n": rng.below(50)}})
+        }
+      })
+      .collect();
+    let nm = tier.pick(60, 200);
+    let muts: Vec<Value> = (0..nm)
+      .map(|_| {
+        // weights: manifest 3, wal 2, segment files 5
+        let sel = rng.below(10);
+        let file = if sel < 3 { json!("manifest") } else if sel < 5 { json!("wal") } else { json!(rng.f64()) };
+        if rng.chance(1, 5) {
+          json!({"kind":"truncate","file":file,"frac":rng.f64()})
+        } else {
+          let mask = [1u64, 0x80, 0xFF][rng.below(3)];
+          json!({"kind":"flip","file":file,"frac":rng.f64(),"mask":mask})
+        }
+      })
+      .collect();
+    json!({"commits": commits, "delete": format!("d{}", 1 + rng.below(2)), "pending": pending, "mutations": muts})
   }
-  fn run_case(&self, _drv: &mut Driver, _case: &Value, _s: &mut Summary) {}
+
+  fn run_case(&self, drv: &mut Driver, case: &Value, s: &mut Summary) {
+    let case = if case.get("case").is_some() { &case["case"] } else { case };
+    let base_dir = scratch();
+    let dir = base_dir.path().join("idx");
+    // ---- build
+    let built = guarded(|| -> Result<(), String> {
+      let idx = idx::create(&dir, &schema(), false)?;
+      for (ci, docs) in case["commits"].as_array().cloned().unwrap_or_default().iter().enumerate() {
+        idx::add_commit(&idx, docs.as_array().unwrap())?;
+        if ci == 0 {
+          if let Some(id) = case["delete"].as_str() {
+            idx::delete_commit(&idx, &[id.to_string()])?;
+          }
+        }
+      }
+      let mut w = idx.writer().map_err(|e| e.to_string())?;
+      for p in case["pending"].as_array().cloned().unwrap_or_default() {
+        if p["op"] == "add" {
+          w.add_document(&idx::doc(&p["doc"])).map_err(|e| e.to_string())?;
+        } else {
+          w.delete_document(p["id"].as_str().unwrap_or("")).map_err(|e| e.to_string())?;
+        }
+      }
+      drop(w); // syncs the log
+      Ok(())
+    });
+    if let Err(e) | Ok(Err(e)) = built {
+      s.fail("build", "cannot build the index for a corruption case", case, json!(e));
+      return;
+    }
+    let files = file_list(&dir);
+    let seg_files: Vec<usize> = (2..files.len()).collect();
+    // The manifest stores the paths the segment files were written at, so every probe runs at
+    // the SAME path: the pristine files are kept aside and restored before each probe.
+    let pristine = base_dir.path().join("pristine");
+    copy_dir(&dir, &pristine);
+    let restore = || {
+      let _ = std::fs::remove_dir_all(&dir);
+      copy_dir(&pristine, &dir);
+    };
+    // ---- baseline (the probe commits, so the directory is restored afterwards)
+    let base = match guarded(|| probe(&dir)) {
+      Ok(Ok(v)) => v,
+      other => {
+        s.fail("baseline", "probe of the intact index failed", case, json!(format!("{other:?}")));
+        return;
+      }
+    };
+    let base_queue = base["queue"].clone();
+    restore();
+    let wal_bytes = std::fs::read(dir.join("wal.log")).unwrap_or_default();
+    // record boundaries of the intact log, from the model
+    let wal_model = drv.call("C02", json!({"op":"replay","data":hex(&wal_bytes)}));
+    for (mi, mu) in case["mutations"].as_array().cloned().unwrap_or_default().iter().enumerate() {
+      let fi = match &mu["file"] {
+        Value::String(x) if x == "manifest" => 0,
+        Value::String(x) if x == "wal" => 1,
+        Value::Number(n) => {
+          if seg_files.is_empty() {
+            0
+          } else {
+            seg_files[((n.as_f64().unwrap_or(0.0) * seg_files.len() as f64) as usize).min(seg_files.len() - 1)]
+          }
+        }
+        _ => 0,
+      };
+      let (fname, fpath) = &files[fi];
+      let orig = std::fs::read(fpath).unwrap_or_default();
+      let mut cur = orig.clone();
+      let mut pos = 0usize;
+      match mu["kind"].as_str().unwrap_or("") {
+        "truncate" => {
+          pos = ((mu["frac"].as_f64().unwrap_or(0.0) * cur.len() as f64) as usize).min(cur.len().saturating_sub(1));
+          cur.truncate(pos);
+        }
+        "flip" => {
+          if !cur.is_empty() {
+            pos = ((mu["frac"].as_f64().unwrap_or(0.0) * cur.len() as f64) as usize).min(cur.len() - 1);
+            cur[pos] ^= mu["mask"].as_u64().unwrap_or(1) as u8;
+          }
+        }
+        "set" => {
+          cur = crate::util::unhex(mu["hex"].as_str().unwrap_or(""));
+        }
+        "subst" => {
+          // first occurrence of a text replaced by another of the same length
+          let from = mu["from"].as_str().unwrap_or("").as_bytes().to_vec();
+          let to = mu["to"].as_str().unwrap_or("").as_bytes().to_vec();
+          if let Some(i) = cur.windows(from.len().max(1)).position(|w| w == &from[..]) {
+            pos = i;
+            cur.splice(i..i + from.len(), to);
+          }
+        }
+        _ => {}
+      }
+      let ctx_lo = pos.saturating_sub(12);
+      let ctx = String::from_utf8_lossy(&orig[ctx_lo..(pos + 12).min(orig.len())]).to_string();
+      let sub = json!({"case": {"commits": case["commits"], "delete": case["delete"], "pending": case["pending"], "mutations": [mu]},
+                       "file": fname, "offset": pos, "context": ctx});
+      s.case(&sub, cur != orig);
+      let _ = mi;
+      std::fs::write(fpath, &cur).unwrap();
+      let got = guarded(|| probe(&dir));
+      let is_wal = fi == 1;
+      let (class, detail) = classify(&base, &got, is_wal);
+      s.count(&format!("{}.{}", fname.split('.').last().unwrap_or(fname), class));
+      let obs = json!({"class": class, "detail": detail});
+      match (class, is_wal) {
+        ("panic", _) => s.fail(&format!("corrupt.panic.{}", fname.split('.').last().unwrap_or(fname)), "panic on a corrupted file", &sub, obs.clone()),
+        ("different", false) => s.fail(
+          &format!("corrupt.silent.{}", fname.split('.').last().unwrap_or(fname)),
+          "a corrupted file silently changes results",
+          &sub,
+          obs.clone(),
+        ),
+        ("different", true) => s.fail("corrupt.silent.wal-committed", "a corrupted log changes committed search results", &sub, obs.clone()),
+        _ => {}
+      }
+      if is_wal && class == "same" {
+        // the recovered queue must be the operations of the intact prefix of the log
+        let mm = drv.call("C02", json!({"op":"replay","data":hex(&cur)}));
+        let got_q: Vec<Value> = detail.as_array().cloned().unwrap_or_default();
+        let model_q: Vec<Value> = mm["pending"].as_array().cloned().unwrap_or_default().iter().map(|e| json!([e["op"] == "add", e["id"]])).collect();
+        if got_q != model_q {
+          s.disagree("wal.recovered-queue", &sub, json!(got_q), json!(model_q));
+        }
+        // finder (no model): a prefix of the intact queue's operations in order … computed on
+        // records: the queue of the damaged log must be a prefix of the intact log's *record*
+        // sequence interpreted up to the damaged record
+        let intact: Vec<Value> = wal_model["entries"].as_array().cloned().unwrap_or_default();
+        let mut ok = false;
+        for cut in 0..=intact.len() {
+          let mut q: Vec<Value> = Vec::new();
+          for e in intact.iter().take(cut) {
+            if e["op"] == "commit" {
+              q.clear();
+            } else {
+              q.push(json!([e["op"] == "add", e["id"]]));
+            }
+          }
+          if q == got_q {
+            ok = true;
+            break;
+          }
+        }
+        if !ok {
+          s.fail("corrupt.wal-not-prefix", "the queue recovered from a damaged log is not the queue of an intact prefix", &sub, json!({"recovered": got_q, "intact_queue": base_queue}));
+        }
+      }
+      if !is_wal && fi >= 2 && cur != orig {
+        // correspondence: the model's openSegment with the real CRC-32
+        let m = drv.call("C17", json!({"op":"segment","files":[{"name": fname, "orig": hex(&orig), "cur": hex(&cur)}]}));
+        let model_err = m["opens"] == json!(false);
+        let real_err = class == "error" || class == "panic";
+        if model_err != real_err {
+          s.disagree("segment.open", &sub, obs, m);
+        }
+      }
+      restore();
+    }
+  }
 }
